@@ -175,6 +175,15 @@ func renderMpcl(mc *mpCase) string {
 			a, x := name(s.X), name(s.Y)
 			n := def(types[s.X-1])
 			fmt.Fprintf(&body, "\t%s := %s\n\t%s[%d] = %s\n", n, a, n, s.C, x)
+		case "asetl":
+			a := name(s.X)
+			n := def(types[s.X-1])
+			fmt.Fprintf(&body, "\t%s := %s\n\t%s[%d] = %d\n", n, a, n, s.C, s.Z)
+		case "fsetl":
+			st := types[s.X-1]
+			x := name(s.X)
+			n := def(st)
+			fmt.Fprintf(&body, "\t%s := %s\n\t%s.f%d = %d\n", n, x, n, s.C, s.Z)
 		case "call":
 			t := types[s.X-1]
 			x, y := name(s.X), name(s.Y)
@@ -688,7 +697,8 @@ func c09Main(args []string) error {
 
 // c03Wide: single-operator programs on types the interpreter of Mpcl.tla cannot enumerate (33..130 bits): the compiled
 // circuit's results on boundary operands are written as ArithTrace events (base-4096 limbs) and checked relationally.
-//   vh c03 wide trace.ndjson results.ndjson n
+//
+//	vh c03 wide trace.ndjson results.ndjson n
 func c03Wide(args []string) error {
 	if len(args) < 2 {
 		return fmt.Errorf("usage: vh c03 wide trace.ndjson results.ndjson n")
@@ -709,7 +719,10 @@ func c03Wide(args []string) error {
 	}
 	rng := rand.New(rand.NewSource(seed()*40503 + 3))
 	widths := []int{33, 46, 47, 50, 63, 64, 65, 66, 83, 100, 127, 128, 129, 130}
-	type wop struct{ name, expr, rt string; signed, both bool }
+	type wop struct {
+		name, expr, rt string
+		signed, both   bool
+	}
 	ops := []wop{{"add", "a + b", "", false, false}, {"sub", "a - b", "", false, false}, {"mul", "a * b", "", false, false},
 		{"mul", "a * b", "", false, false}, {"udiv", "a / b, a % b", "", false, true}, {"idiv", "a / b, a % b", "", true, true},
 		{"ult", "a < b", "bool", false, false}, {"ugt", "a > b", "bool", false, false}, {"ilt", "a < b", "bool", true, false},
